@@ -210,6 +210,20 @@ class Harness(cm.BaseB):
                 if mode == "column" and c != c2:
                     V.append(("C15/column-mode", f"{R}x{C} seed {seed}: {w} -> {x} leaves its column"))
             if lab == "full2d":
+                # fully determined by the seed: a third randomizer that is first asked for the last well, the last
+                # row backwards and the last column, and a fourth one that is first asked to de-randomize, agree with it
+                try:
+                    g = ids(R, C)
+                    rz3, rz4 = rt.WellRandomizer((R, C), seed, mode=mode), rt.WellRandomizer((R, C), seed, mode=mode)
+                    rz3.randomize_wells(g[R - 1][C - 1])
+                    rz3.randomize_wells(g[R - 1][::-1])
+                    rz3.randomize_wells([g[r][C - 1] for r in range(R - 1, -1, -1)])
+                    rz4.derandomize_wells([g[R - 1][C - 1], g[0][0]])
+                    for nm, other in (("asked for the last well / row / column first", rz3), ("asked to de-randomize first", rz4)):
+                        if [str(x) for x in np.asarray(other.randomize_wells(np.array(val))).flatten()] != fw:
+                            V.append(("C15/seed-determinism", f"{R}x{C} seed {seed} {mode}: a randomizer with the same arguments that was {nm} maps the plate differently"))
+                except Exception as e:
+                    V.append(("C15/raised", f"{R}x{C} seed {seed} {mode}: {type(e).__name__}: {e}"))
                 if sorted(fw) != sorted(allw):
                     V.append(("C15/bijection", f"{R}x{C} seed {seed} {mode}: not a permutation of the plate"))
                 dr = self.apply(rz.derandomize_wells, val, V, f"derandomize_wells {R}x{C} full")
